@@ -70,7 +70,10 @@ def load_known():
 def known_open(prop):
     """signature -> finding id, for open findings of this property."""
     out = {}
+    ignore = set(filter(None, os.environ.get("MVF_IGNORE_KNOWN", "").split(",")))   # diagnostics only
     for f in load_known():
+        if f["id"] in ignore:
+            continue
         if f.get("status") == "open" and prop in f.get("properties", [f.get("property")]):
             for sig in f.get("signatures", [f.get("signature")]):
                 out[sig] = f["id"]
